@@ -171,6 +171,10 @@ def run_unit(unit, workdir, rlimit, extra_args=()):
             ctext = 'precondition of callee: ' + callee_clause
             if clause is not None:
                 label = '%s.call-pre[%s]' % (fname, clause['label'])
+        elif 'postcondition' in msg:
+            label = fname + ('.run_rel' if fname.endswith('::run') else '.post')
+            props = f['props'] if f else []
+            ctext = 'postcondition declared outside the function contract (trait-level ensures): ' + msg
         else:
             label = fname + '.safety'
             props = f['props'] if f else []
